@@ -24,7 +24,8 @@
   * `SizedReader.readlines(sizehint)`: the `min(sizehint, length - bytes_read)` adjustment when a
     length is declared, the `seen >= sizehint` test after each line.
   * `Entity.__next__`: `readline()`, empty → `StopIteration`.
-  * `finish()`: `done = True`.
+  * `finish()`: `done = True` (and a ghost count of the calls; what a call does to the trailer of a chunked
+    body is modelled in `CpModel.ReaderProcess`).
   Not modelled: trailer parsing in `finish()` (`has_trailers`), negative sizes, exceptions of the
   underlying stream other than `MaxSizeExceeded`.
 
@@ -52,10 +53,12 @@ structure St where
   buffer : Bytes           -- SizedReader.buffer
   bytesRead : Nat          -- SizedReader.bytes_read
   done : Bool              -- SizedReader.done
+  fins : Nat               -- ghost: how many times `finish()` has been called (each call re-reads the
+                           -- trailer of a chunked body unless the code guards against that, see ReaderProcess)
   deriving Repr, DecidableEq, Inhabited
 
 def init (src : Bytes) (frag : List Nat) (failAt : Option Nat := none) : St :=
-  { src := src, frag := frag, failAt := failAt, off := 0, buffer := [], bytesRead := 0, done := false }
+  { src := src, frag := frag, failAt := failAt, off := 0, buffer := [], bytesRead := 0, done := false, fins := 0 }
 
 inductive Res (α : Type) where
   | ok (a : α)
@@ -83,7 +86,7 @@ def over (cfg : Cfg) (br : Nat) : Bool :=
   | some m => m != 0 && decide (br > m)
   | none => false
 
-def finish (s : St) : St := { s with done := true }
+def finish (s : St) : St := { s with done := true, fins := s.fins + 1 }
 
 /-- the `remaining` computed at the top of `read` (`none` = `inf`) -/
 def remainingOf (cfg : Cfg) (s : St) (size : Option Nat) : Option Nat :=
